@@ -88,15 +88,16 @@ NAMES = [
     ("0", "0", True), ("-", "-", True), ("_", "_", True), (L63 + ".com", L63 + ".com", True),
     (".".join([L63] * 3) + "." + "b" * 61, ".".join([L63] * 3) + "." + "b" * 61, True),
     ("v1.a", "v1.a", True), ("xn", "xn", True), ("axn--b.de", "axn--b.de", True),
+    (".".join([L63] * 3) + "." + "b" * 61 + ".c", ".".join([L63] * 3) + "." + "b" * 61 + ".c", True),      # 255 bytes
 ]
-BAD_NAMES = ["a" * 64 + ".com", "a..b", ".a", "a b", "exa%41mple.com", "h;x", "a,b", "", ".", "a" + ".b" * 130, "[", "]", "a]", "[a",
+BAD_NAMES = [".".join([L63] * 3) + "." + "b" * 62 + ".c", "a" * 64 + ".com", "a..b", ".a", "a b", "exa%41mple.com", "h;x", "a,b", "", ".", "a" + ".b" * 130, "[", "]", "a]", "[a",
              "xn--a.com", "xn--.de", "ex\x00ample", "a:b", "fe80::1%x", "*", "a+b"]
 # canonical (Unicode) form computed with the stdlib codec, which is a contract here
 IDN_ACE = [(t, t.lower().encode("ascii").decode("idna")) for t in
            ["xn--bcher-kva.de", "XN--BCHER-KVA.DE", "xn--r8jz45g.xn--zckzah", "www.xn--dna-qma.example"]]
 IDN_UNI = ["bücher.de", "例え.テスト", "faß.de", "BÜCHER.de", "℀.com", "a。b"]
 SCHEMES = [("http", 8), ("https", 6), ("HTTP", 1), ("hTTps", 1)]
-ODD_SCHEMES = ["ftp", "ws", "", "h+t.p-1", "1http", "http ", "ht tp", "tel", "mailto"]
+ODD_SCHEMES = ["ftp", "ws", "", "httpsx", "https+tls", "HTTPs.", "h+t.p-1", "1http", "http ", "ht tp", "tel", "mailto"]
 USERINFO = ["u@", "u:p@", "a@b@", "@", ":@", "[@", "[::1]@", "[::1]@", "[v1.a]@"]
 PORTS = ["", "", "", ":80", ":443", ":8080", ":1", ":65535", ":080", ":00443", ":8443"]
 ODD_PORTS = [":", ":0", ":00", ":65536", ":99999999999", ":-1", ":8a", ": 80", ":80 ", ":+80", ":8_0", "::80", ":١"]
